@@ -5,7 +5,15 @@ A *pairs case* is
    'flat0': bool, 'flat1': bool, 'spell': 'array'|'list'|'tuple'|'fview' (strided view of a wider array)|'intlist' (Python ints when every
    coordinate is integer-valued and the route is am.dvect/am.dmag, else float list), 'pbcspell': 'list'|'tuple'|'array',
    'route': 'func'|'sys_pos'|'sys_idx'|'sys_mix' (pos_0 positions, pos_1 atom indices),
-   'idx': 'int'|'npint'|'list'|'array'|'slice'|'neg'|'mask', 'kind': str}
+   'idx': 'int'|'npint'|'list'|'array'|'slice'|'neg'|'mask', 'kind': str,
+   'postype': 'float'|'intlist'|'int64'|'int32' (how whole-number Cartesian positions are handed to Atoms for the System routes:
+   anything but 'float' makes Atoms keep them as an INTEGER array), 'pbcrot': int (order in which the 8 periodicity settings
+   are gone through on the same objects), 'magfirst': bool (dmag before dvect in the mag clause),
+   'hist': None | {'cell': <the cell the Box object describes FIRST>, 'how': <public way of changing that same Box object in
+   place into 'cell' of the case>, 'warm': 'none'|'dmag'|'dvect'|'both' (judged calls on the box before it is changed),
+   'wform': 'func'|'sys', 'wpbc': 0..7, 'setpos': <public way of giving the System its positions for the new cell>,
+   'peek': bool (derived Box quantities read before and after the change), 'ghost': bool (a short-lived other Box is used and
+   dropped first)}}
 with N0, N1 in {1, N} (one-to-one, one-to-many either side, many-to-many).  'p0'/'p1' are relative coordinates of
 the cell (Cartesian = s.V + origin, computed by the oracle) unless 'cart' is true, in which case they are Cartesian.
 All 8 periodicity settings are looped over by the oracle, so pbc is not part of the case.
@@ -43,7 +51,9 @@ _PT_INT = st.lists(_INTF, min_size=3, max_size=3)
 
 _SHAPES = st.sampled_from(['1-1', '1-N', 'N-1', 'N-N', 'N-N', '1-N', 'N-1'])
 _NMANY = st.integers(2, 5)
-_SPELL = st.sampled_from(['array', 'array', 'list', 'tuple', 'fview', 'intlist'])
+_SPELL = st.sampled_from(['array', 'array', 'list', 'tuple', 'fview', 'intlist', 'readonly', 'forder', 'intarray'])
+_POSTYPE = st.sampled_from(['float', 'intlist', 'int64', 'int32'])
+_PBCROT = st.integers(0, 15)
 _PBCSPELL = st.sampled_from(['list', 'tuple', 'array'])
 _ROUTE = st.sampled_from(['func', 'func', 'func', 'func', 'sys_pos', 'sys_idx', 'sys_idx', 'sys_mix'])
 _IDX = st.sampled_from(['int', 'list', 'array', 'slice', 'neg', 'npint', 'mask'])
@@ -127,6 +137,41 @@ _DYCELLS = dyadic_cells()
 _INTCELLS = integer_cells()
 
 
+# ----------------------------------------------------------------------------- object history
+# The separation functions read the cell from a Box OBJECT, and a Box (and the System holding it) can be changed in place.
+# A history makes the Box describe another cell first, optionally lets the judged functions see it in that state, and then
+# turns the SAME object into the cell of the case through one of the public ways of doing that.
+
+HOWS = ('vects=', 'set_vects', 'set_avect', 'set_vectors', 'set_lengths', 'set_hi_los', 'set_abc', 'sys_box_set',
+        'sys_box_set_scale', 'wrap', 'sys_box_vects=')
+_HOW = st.sampled_from(HOWS + ('sys_box_set_scale', 'wrap'))
+_WARM = st.sampled_from(['none', 'dmag', 'dmag', 'dvect', 'both', 'both'])
+_WFORM = st.sampled_from(['func', 'sys'])
+_SETPOS = st.sampled_from(['slice', 'attr', 'prop', 'prop_scaled', 'view', 'keep'])
+_STRAIN = st.integers(900, 1100).map(lambda k: k / 1000.0)
+_SHEAR = st.integers(-100, 100).map(lambda k: k / 1000.0)
+_PBCI = st.integers(0, 7)
+_TEN = st.integers(0, 9)
+
+
+def _strained(draw, c0):
+    """the same cell, lengths changed by up to 10 % and sheared a little (what System.box_set(scale=True) is used for)"""
+    c1 = dict(c0)
+    for k in ('lx', 'ly', 'lz'):
+        c1[k] = round(c0[k] * draw(_STRAIN), 6)
+    c1['xy'] = round(c0['xy'] + draw(_SHEAR) * c0['lx'], 6)
+    c1['yz'] = round(c0['yz'] + draw(_SHEAR) * c0['ly'], 6)
+    return c1
+
+
+def _history(draw, cell, share=4):
+    if draw(_TEN) >= share:
+        return None
+    prior = _strained(draw, cell) if draw(_BOOL) else draw(_CELLS_MILD)
+    return {'cell': prior, 'how': draw(_HOW), 'warm': draw(_WARM), 'wform': draw(_WFORM), 'wpbc': draw(_PBCI),
+            'setpos': draw(_SETPOS), 'peek': draw(_BOOL), 'ghost': draw(_TEN) < 3}
+
+
 def _shape_counts(draw):
     shape = draw(_SHAPES)
     n = draw(_NMANY)
@@ -154,7 +199,7 @@ def pairs_cases(draw, incell_share=7, near_share=0, routes=True, allow_cart=True
     """general generator of DESIGN C02: cells as C01; 70 % of the point sets in [0,1]^3 (incl. faces), 30 % in [-3,4]^3"""
     sub = draw(st.integers(0, 19))
     cart = False
-    if sub == 0 and allow_cart:
+    if sub <= 1 and allow_cart:
         cell = draw(_INTCELLS)
         kind = 'intcart'
         cart = True
@@ -186,7 +231,8 @@ def pairs_cases(draw, incell_share=7, near_share=0, routes=True, allow_cart=True
     route = draw(_ROUTE) if routes else 'func'
     return {'cell': cell, 'cart': cart, 'p0': p0, 'p1': p1, 'flat0': n0 == 1 and draw(_BOOL),
             'flat1': n1 == 1 and draw(_BOOL), 'spell': draw(_SPELL), 'pbcspell': draw(_PBCSPELL),
-            'route': route, 'idx': draw(_IDX), 'kind': kind}
+            'route': route, 'idx': draw(_IDX), 'kind': kind, 'postype': draw(_POSTYPE) if cart else 'float',
+            'pbcrot': draw(_PBCROT), 'magfirst': draw(_BOOL), 'hist': _history(draw, cell)}
 
 
 @functools.lru_cache(maxsize=None)
@@ -203,10 +249,7 @@ def premise_heavy():
 
 _REF = st.sampled_from(['final', 'initial', 'initial', None, 'default'])
 _MODE = st.sampled_from(['same', 'strained', 'strained', 'other'])
-_STRAIN = st.integers(900, 1100).map(lambda k: k / 1000.0)
-_SHEAR = st.integers(-100, 100).map(lambda k: k / 1000.0)
 _SMALL = st.integers(-3000, 3000).map(lambda k: k / 10000.0)
-_PBCI = st.integers(0, 7)
 
 
 @st.composite
